@@ -5,8 +5,11 @@ WT=$1; NAME=$2
 set -e
 mkdir -p /verif/seeded/$NAME
 cp $WT/seeded/patch.diff $WT/seeded/demo.py $WT/seeded/meta.json /verif/seeded/$NAME/
-git -C /repo apply --check /verif/seeded/$NAME/patch.diff && echo "patch applies to /repo HEAD"
-PKG=$(/venv/bin/python /verif/vlib/build.py plain)
+CHK=$(mktemp -d /tmp/chk.XXXX); git -C /repo archive HEAD | tar -x -C $CHK; (cd $CHK && git init -q . && git apply --check /verif/seeded/$NAME/patch.diff) && echo "patch applies to /repo HEAD"; rm -rf $CHK
+# the clean reference build comes from an export of /repo's HEAD commit (not from the working tree, which
+# tools/seed_try.sh may be patching at the same time)
+CLEAN=$(mktemp -d /tmp/clean.XXXX); git -C /repo archive HEAD | tar -x -C $CLEAN
+PKG=$(VERIF_REPO=$CLEAN /venv/bin/python /verif/vlib/build.py plain); rm -rf $CLEAN
 set +e
 ( cd /tmp && PYTHONPATH=$PKG /venv/bin/python /verif/seeded/$NAME/demo.py > /tmp/demo_clean.log 2>&1 ); A=$?
 # make sure the worktree really contains exactly the patch
